@@ -43,7 +43,7 @@ import (
 func init() {
 	rig.Register(&rig.Check{
 		ID:    "C09",
-		Floor: 450,
+		Floor: 600,
 		Rule: "sequential case = one World (4 local server features, 3 of them of the same type - S3 [1,1]/1 carries the feature number of S0 [1]/1 in its sub-entity -, 1 local client feature, 3 identically numbered peers with 2 same-typed client features each) and a seeded history of 10-25 operations " +
 			"{bind (valid / server already bound by the same client, another client of the peer, another peer / wrong role / wrong type / requested type Generic for concretely typed features / unknown entity / unknown feature, device part omitted; clients in [1], [1,1] and the device information entity [0]), " +
 			"unbind (holder / same numbers from another peer / other client of the holder's peer / holder's client on another server / unknown), registry read}; a fifth of the requests and half of the deletes that use the numbers of another peer's binding carry a FOREIGN device part " +
@@ -56,7 +56,12 @@ func init() {
 			"rmw case (regkit.go) = a registry pre-filled with 50-250 bindings of a silent bystander connection (one per server feature); 3-4 actor goroutines, each with its own connection and its own 1-2 server features, toggle bind / unbind (now and then a repeated call) for 6 (thorough 12) rounds of 8-16 calls each; " +
 			"every call's answer must be the one the history of its own server feature demands (calls on different server features commute), and at the quiescent point after every round BindingsOnFeature, HasLocalFeatureRemoteBinding, Bindings(peer) with ids, one nodeManagementBindingData read, " +
 			"the bystander's bindings and the add/remove events must equal what the acknowledged calls leave; non-trivial if in some round a call overlapped an acknowledged delete of another connection (call/return stamps from one atomic counter). " +
-			"distinct = hash of operation shapes and outcomes (sequential) / variant, k, clients and hook trace (duel) / sizes and overlap counts (rmw).",
+			"window case (c09_window.go) = 5 connections, 4 same-typed server features (one the nested twin) and one of another type, 0-3 bindings beforehand; one or two binding requests of different connections (same or different server feature; the second possibly launched inside the window of the first; one in eight aimed at a bound feature) " +
+			"are parked one by one at the yield point after the single-binding check; while they are parked a seeded script of 1-6 requests of the other connections runs, each to COMPLETION (styles: exchange = a binding of another feature deleted and the target bound, in either order; shift = plus a binding of a third feature; " +
+			"churn = the target bound and unbound again by somebody else; random; each with 0-2 arbitrary requests in between: binds of the target / a free / a bound feature, deletes by the holder / by a connection with the same numbers); the parked requests are released in the middle of the script, one by one or together; 0-2 requests follow. " +
+			"BindingsOnFeature of every server feature is read after every step (never two bindings) and enters, with the requests, a porcupine history per server feature (register model); at the end Bindings(peer), HasLocalFeatureRemoteBinding and BindingsOnFeature must describe one registry, ids distinct, untouched bindings unchanged, events = acknowledged requests. " +
+			"non-trivial if a request was parked until the script released it, at least one acknowledged request of another connection ran inside its window, and porcupine decided. " +
+			"distinct = hash of operation shapes and outcomes (sequential) / variant, k, clients and hook trace (duel) / sizes and overlap counts (rmw) / request kinds, clients, features, outcomes, style and release mode (window).",
 		Assumptions: []string{
 			"message handling is synchronous, so results, events and registry are complete when the call into the stack has returned",
 			"requests that omit the device part of an address are judged by the entity/feature part on the sender's resp. the local tree",
@@ -67,6 +72,7 @@ func init() {
 			"a requested serverFeatureType Generic is not 'the requested type' of a concretely typed feature: such a request must be refused",
 			"rmw part: no hook point exists inside RemoveBinding; the overlap of calls is not forced but measured (counts rmw_rounds_*), and only logical call/return stamps are used",
 			"a rendezvous that expires only means 'window not forced' (counted); it never decides a verdict",
+			"window part: a parked request may take effect anywhere between its call and its return (the statement does not say where): wherever the register model allows both outcomes, both are accepted; a hold that expires (45 s watchdog) only shortens the window (counted), the verdict is on call/return stamps in any case",
 		},
 		Parts: []rig.Part{
 			{Name: "seq", Cases: func(t rig.Tier) int { return map[rig.Tier]int{rig.Quick: 1200, rig.Thorough: 48000}[t] }, Run: c09Seq, Procs: 2},
@@ -74,6 +80,8 @@ func init() {
 			{Name: "conc-duel-race", Race: true, Cases: func(t rig.Tier) int { return map[rig.Tier]int{rig.Quick: 400, rig.Thorough: 8000}[t] }, Run: c09Duel, Procs: 4, Quiet: 120 * time.Second},
 			{Name: "conc-rmw", Cases: func(t rig.Tier) int { return map[rig.Tier]int{rig.Quick: 40, rig.Thorough: 800}[t] }, Run: func(c *rig.Ctx) { rkRmwCase(c, c09RegKind) }, Procs: 4, Quiet: 120 * time.Second},
 			{Name: "early", Cases: func(t rig.Tier) int { return map[rig.Tier]int{rig.Quick: 120, rig.Thorough: 3000}[t] }, Run: func(c *rig.Ctx) { rkEarlyCase(c, c09RegKind) }, Procs: 2},
+			{Name: "conc-window", Cases: func(t rig.Tier) int { return map[rig.Tier]int{rig.Quick: 400, rig.Thorough: 16000}[t] }, Run: c09Window, Procs: 4, Quiet: 90 * time.Second},
+			{Name: "conc-window-race", Race: true, Cases: func(t rig.Tier) int { return map[rig.Tier]int{rig.Quick: 40, rig.Thorough: 2000}[t] }, Run: c09Window, Procs: 4, Quiet: 120 * time.Second},
 			{Name: "conc-rmw-race", Race: true, Cases: func(t rig.Tier) int { return map[rig.Tier]int{rig.Quick: 0, rig.Thorough: 96}[t] }, Run: func(c *rig.Ctx) { rkRmwCase(c, c09RegKind) }, Procs: 4, Quiet: 180 * time.Second},
 		},
 	})
